@@ -6,7 +6,7 @@
 (* edge is the pre of the next edge of the same history (same observation),*)
 (* so per-edge conformance chains into whole-history conformance.          *)
 (***************************************************************************)
-EXTENDS Ledger, Json, TLC
+EXTENDS Ledger, Json, TLC, Sequences
 
 Edges == ndJsonDeserialize("edges.ndjson")
 VARIABLE l
@@ -17,22 +17,25 @@ UxSet(p) == { [id |-> p.unspent[i].id, addr |-> p.unspent[i].addr, coins |-> p.u
 StateOf(p) == [len |-> p.len, headSeq |-> p.headSeq, headTime |-> p.headTime, headHash |-> p.headHash,
                genesisHash |-> p.genesisHash, uxhash |-> p.uxhash, unspent |-> UxSet(p), pool |-> Rng(p.pool)]
 
-\* the first component of conformance that fails, or "ok"
-Reason(e) ==
+\* every component of conformance that fails (one edge can violate several properties)
+Reasons(e) ==
   LET s == StateOf(e.pre)
       t == StateOf(e.post)
       ok == Valid(s, e.blk)
-  IN IF Len(e.pre.unspent) # Cardinality(UxSet(e.pre)) THEN "duplicate-ids"             \* the real set has no duplicate ids
-     ELSE IF (e.res = "accepted") # ok THEN (IF ok THEN "valid-rejected" ELSE "invalid-accepted")   \* C04 (and C01/C02 by the flaw)
-     ELSE IF ~SupplyOK(t, e.volume) THEN "supply"                                       \* C01
-     ELSE IF ok /\ t.unspent # Apply(s, e.blk, e.post.uxhash).unspent THEN "unspent"    \* C02: unspent' = unspent - spent + created
-     ELSE IF ok /\ t.pool # Apply(s, e.blk, e.post.uxhash).pool THEN "pool"                 \* C06: a confirmed transaction leaves the pool
-     ELSE IF ok /\ t # Apply(s, e.blk, e.post.uxhash) THEN "head"
-     ELSE IF ok /\ ~(e.stored.sigOK /\ e.stored.hash = e.blk.hash) THEN "stored"       \* C04: the signature covers the stored header
-     ELSE IF ok /\ e.post.ntxns # e.pre.ntxns + Len(e.blk.txns) THEN "history"
-     ELSE IF ~ok /\ (t # s \/ e.post.ntxns # e.pre.ntxns) THEN "rejected-but-changed"   \* C04: a rejected block changes nothing
-     ELSE IF t.len # t.headSeq + 1 THEN "length"
-     ELSE "ok"
+      C(bad, name) == IF bad THEN name ELSE "ok"
+  IN IF Len(e.pre.unspent) # Cardinality(UxSet(e.pre)) THEN <<"duplicate-ids">>             \* the real set has no duplicate ids
+     ELSE IF (e.res = "accepted") # ok THEN <<IF ok THEN "valid-rejected" ELSE "invalid-accepted">> \o
+             SelectSeq(<<C(~SupplyOK(t, e.volume), "supply"), C(~ok /\ e.res = "rejected" /\ (t # s \/ e.post.ntxns # e.pre.ntxns), "rejected-but-changed")>>, LAMBDA x : x # "ok")
+     ELSE SelectSeq(<<
+       C(~SupplyOK(t, e.volume), "supply"),                                                   \* C01
+       C(ok /\ t.unspent # Apply(s, e.blk, e.post.uxhash).unspent, "unspent"),                \* C02: unspent' = unspent - spent + created
+       C(ok /\ t.pool # Apply(s, e.blk, e.post.uxhash).pool, "pool"),                         \* C06: a confirmed transaction leaves the pool
+       C(ok /\ [t EXCEPT !.unspent = {}, !.pool = {}] # [Apply(s, e.blk, e.post.uxhash) EXCEPT !.unspent = {}, !.pool = {}], "head"),
+       C(ok /\ ~(e.stored.sigOK /\ e.stored.hash = e.blk.hash), "stored"),                   \* C04: the signature covers the stored header
+       C(ok /\ e.post.ntxns # e.pre.ntxns + Len(e.blk.txns), "history"),
+       C(~ok /\ (t # s \/ e.post.ntxns # e.pre.ntxns), "rejected-but-changed"),              \* C04: a rejected block changes nothing
+       C(t.len # t.headSeq + 1, "length")
+     >>, LAMBDA x : x # "ok")
 
-Conforms == LET r == Reason(Edges[l]) IN r = "ok" \/ PrintT(<<"MISMATCH", "rec", l, Edges[l].mut, r>>)
+Conforms == LET rs == Reasons(Edges[l]) IN rs = << >> \/ \A i \in DOMAIN rs : PrintT(<<"MISMATCH", "rec", l, Edges[l].mut, rs[i]>>)
 =============================================================================
